@@ -28,6 +28,7 @@ Local Notation trim_objT := (trim_obj V Q A).
 Local Notation loop_fullT := (loop_full V Q A).
 Local Notation loop_crashT := (loop_crash V Q A).
 Local Notation trim_allT := (trim_all V Q A).
+Local Notation restore_allT := (restore_all V Q A).
 Local Notation mstateT := (mstate V Q A GV).
 Local Notation execT := (exec V Q A GV Val dV dQ key_of dim_ok exc_ok pix_shape post F).
 Local Notation exec_roT := (exec_ro V Q A GV Val key_of dim_ok exc_ok pix_shape post F).
@@ -135,16 +136,20 @@ Qed.
 Lemma trim_pos_self o0 : wf_objT o0 -> trim_posT (length (o_pos V Q A o0)) o0 = o0.
 Proof. intros _. unfold trim_pos. rewrite firstn_all. destruct o0; reflexivity. Qed.
 
-(* ---- invariant on stores *)
-Definition good (st0 st : storeT) (tiled : list (nat * nat)) : Prop :=
+(* ---- invariant on stores: every object is an extension of the original one, and is the original
+   one unless its index is covered by what the wrapper's finally will undo *)
+Definition good (st0 st : storeT) (cl : list nat) : Prop :=
   length st = length st0 /\
   forall i o0, nth_error st0 i = Some o0 ->
-    exists o, nth_error st i = Some o /\ ext o0 o /\ (o = o0 \/ exists m0, In (i, m0) tiled).
+    exists o, nth_error st i = Some o /\ ext o0 o /\ (o = o0 \/ In i cl).
 
 Definition lens_ok (st0 : storeT) (l : list (nat * nat)) : Prop :=
   forall i m0 o0, In (i, m0) l -> nth_error st0 i = Some o0 -> m0 = length (o_pos V Q A o0).
 
-Lemma good_init st : wf_storeT st -> good st st [].
+Definition saved_ok (st0 : storeT) (l : list (nat * (list V * list Q))) : Prop :=
+  forall i pq o0, In (i, pq) l -> nth_error st0 i = Some o0 -> pq = (o_pos V Q A o0, o_ori V Q A o0).
+
+Lemma good_init st cl : wf_storeT st -> good st st cl.
 Proof.
   intros H. split; auto. intros i o0 Hi. exists o0. split; [exact Hi|]. split; [|left; reflexivity].
   apply ext_refl. unfold wf_store in H. rewrite Forall_forall in H. apply H.
@@ -155,13 +160,13 @@ Lemma good_mono st0 st t t' : incl t t' -> good st0 st t -> good st0 st t'.
 Proof.
   intros Hi (Hl & H). split; auto. intros i o0 Ho. destruct (H i o0 Ho) as (o & Hn & He & Hd).
   exists o. split; [exact Hn|]. split; [exact He|].
-  destruct Hd as [Hd | (m0 & Hd)]; [left; auto | right; exists m0; auto].
+  destruct Hd as [Hd | Hd]; [left; auto | right; auto].
 Qed.
 
 Lemma good_upd st0 st t i f :
   good st0 st t ->
   (forall o0 o, nth_error st0 i = Some o0 -> ext o0 o -> ext o0 (f o)) ->
-  ((exists m0, In (i, m0) t) \/ (forall o0, nth_error st0 i = Some o0 -> wf_objT o0 -> f o0 = o0)) ->
+  (In i t \/ (forall o0, nth_error st0 i = Some o0 -> wf_objT o0 -> f o0 = o0)) ->
   good st0 (updT i f st) t.
 Proof.
   intros (Hl & H) Hf Hd. split; [rewrite length_upd; auto|].
@@ -177,7 +182,7 @@ Lemma loop_full_good st0 t f l : forall st,
   good st0 st t ->
   (forall i m0 o0 o, In (i, m0) l -> nth_error st0 i = Some o0 -> ext o0 o -> ext o0 (f m0 o)) ->
   (forall i m0, In (i, m0) l ->
-     (exists m, In (i, m) t) \/ (forall o0, nth_error st0 i = Some o0 -> wf_objT o0 -> f m0 o0 = o0)) ->
+     In i t \/ (forall o0, nth_error st0 i = Some o0 -> wf_objT o0 -> f m0 o0 = o0)) ->
   good st0 (loop_fullT f l st) t.
 Proof.
   induction l as [|[i m0] l IH]; intros st Hg Hf Hd; simpl; auto.
@@ -189,33 +194,40 @@ Proof.
   - intros; eapply Hd; eauto. right; eauto.
 Qed.
 
+Lemma In_select ps (l : list (nat * nat)) x : In x (select ps l) -> In x l.
+Proof.
+  unfold select. intros H. apply in_flat_map in H. destruct H as (j & _ & H).
+  destruct (nth_error l j) as [y|] eqn:E; simpl in H; [|contradiction].
+  destruct H as [<-|[]]. eapply nth_error_In; eauto.
+Qed.
+
 Lemma loop_crash_good st0 t f fh l lc st :
   good st0 st t ->
   (forall i m0 o0 o, In (i, m0) l -> nth_error st0 i = Some o0 -> ext o0 o -> ext o0 (f m0 o)) ->
   (forall i m0 o0 o, In (i, m0) l -> nth_error st0 i = Some o0 -> ext o0 o -> ext o0 (fh m0 o)) ->
   (forall i m0, In (i, m0) l ->
-     (exists m, In (i, m) t) \/
+     In i t \/
      (forall o0, nth_error st0 i = Some o0 -> wf_objT o0 -> f m0 o0 = o0 /\ fh m0 o0 = o0)) ->
   good st0 (loop_crashT f fh l lc st) t.
 Proof.
   intros Hg Hf Hfh Hd. unfold loop_crash.
-  assert (H1 : good st0 (loop_fullT f (firstn (lc_done lc) l) st) t).
+  assert (H1 : good st0 (loop_fullT f (select (lc_done lc) l) st) t).
   { apply loop_full_good; auto.
-    - intros i m0 o0 o Hin. apply Hf. eapply firstn_In; eauto.
-    - intros i m0 Hin. destruct (Hd i m0) as [Hx | Hx]; [eapply firstn_In; eauto | left; auto |].
+    - intros i m0 o0 o Hin. apply Hf. eapply In_select; eauto.
+    - intros i m0 Hin. destruct (Hd i m0) as [Hx | Hx]; [eapply In_select; eauto | left; auto |].
       right. intros o0 Ho Hw. apply (Hx o0 Ho Hw). }
-  destruct (lc_half lc); auto.
-  destruct (nth_error l (lc_done lc)) as [[i m0]|] eqn:En; auto.
+  destruct (lc_half lc) as [j|]; auto.
+  destruct (nth_error l j) as [[i m0]|] eqn:En; auto.
   apply nth_error_In in En. simpl. apply good_upd; auto.
   - intros o0 o. apply Hfh. exact En.
   - destruct (Hd i m0 En) as [Hx | Hx]; [left; auto|]. right. intros o0 Ho Hw. apply (Hx o0 Ho Hw).
 Qed.
 
-Lemma trim_all_restores st0 l : forall st, good st0 st l -> lens_ok st0 l -> trim_allT l st = st0.
+Lemma trim_all_restores st0 l : forall st, good st0 st (map fst l) -> lens_ok st0 l -> trim_allT l st = st0.
 Proof.
   induction l as [|[i m0] l IH]; intros st (Hl & Hg) Hk.
   - simpl. apply nth_error_ext_eq; auto. intros j o0 Ho.
-    destruct (Hg j o0 Ho) as (o & Hn & _ & [-> | (m & [])]). exact Hn.
+    destruct (Hg j o0 Ho) as (o & Hn & _ & [-> | []]). exact Hn.
   - unfold trim_all, loop_full in *. simpl. apply IH.
     + split; [rewrite length_upd; auto|]. intros j o0 Ho.
       destruct (Hg j o0 Ho) as (o & Hn & He & Hd).
@@ -224,23 +236,61 @@ Proof.
         rewrite (Hk j m0 o0 (or_introl eq_refl) Ho). rewrite (ext_trim_eq o0 o He).
         split; [reflexivity|]. split; [apply ext_refl; eapply ext_wf; eauto | left; reflexivity].
       * exists o. rewrite nth_error_upd_other by exact Hne. split; [exact Hn|]. split; [exact He|].
-        destruct Hd as [Hd | (m & [Hd | Hd])]; [left; auto | congruence | right; exists m; auto].
+        destruct Hd as [Hd | [Hd | Hd]]; [left; auto | simpl in Hd; congruence | right; auto].
+    + intros j m o0 Hin. apply Hk. right; exact Hin.
+Qed.
+
+Lemma restore_all_restores st0 l : forall st,
+  good st0 st (map fst l) -> saved_ok st0 l -> restore_allT l st = st0.
+Proof.
+  induction l as [|[i pq] l IH]; intros st (Hl & Hg) Hk.
+  - simpl. apply nth_error_ext_eq; auto. intros j o0 Ho.
+    destruct (Hg j o0 Ho) as (o & Hn & _ & [-> | []]). exact Hn.
+  - unfold restore_all in *. simpl. apply IH.
+    + split; [rewrite length_upd; auto|]. intros j o0 Ho.
+      destruct (Hg j o0 Ho) as (o & Hn & He & Hd).
+      destruct (Nat.eq_dec i j) as [->|Hne].
+      * exists o0. rewrite nth_error_upd_same, Hn. simpl.
+        rewrite (Hk j pq o0 (or_introl eq_refl) Ho). unfold set_paths; simpl.
+        destruct He as (_ & _ & Ha & Hw). rewrite Ha.
+        split; [destruct o0; reflexivity|]. split; [apply ext_refl; exact Hw | left; reflexivity].
+      * exists o. rewrite nth_error_upd_other by exact Hne. split; [exact Hn|]. split; [exact He|].
+        destruct Hd as [Hd | [Hd | Hd]]; [left; auto | simpl in Hd; congruence | right; auto].
     + intros j m o0 Hin. apply Hk. right; exact Hin.
 Qed.
 
 (* ---- invariant on machine states *)
-Definition Inv (st0 : storeT) (recorded dirty : bool) (m : mstateT) : Prop :=
-  good st0 (m_store V Q A GV m) (m_tiled V Q A GV m) /\
+Definition cov (w : wrapper) (m : mstateT) : list nat :=
+  match w with
+  | WPlain => []
+  | WFinallyTrim => map fst (m_tiled V Q A GV m)
+  | WFinallyRestore => map fst (m_saved V Q A GV m)
+  end.
+
+Definition Inv (w : wrapper) (st0 : storeT) (recorded dirty : bool) (m : mstateT) : Prop :=
+  good st0 (m_store V Q A GV m) (cov w m) /\
   lens_ok st0 (m_tiled V Q A GV m) /\
+  saved_ok st0 (m_saved V Q A GV m) /\
   lens_ok st0 (m_reset V Q A GV m) /\
   (dirty = false -> m_store V Q A GV m = st0) /\
-  (recorded = true -> incl (m_reset V Q A GV m) (m_tiled V Q A GV m)).
+  (recorded = true -> incl (map fst (m_reset V Q A GV m)) (cov w m)).
 
-Definition InvF (st0 : storeT) (m : mstateT) : Prop :=
-  good st0 (m_store V Q A GV m) (m_tiled V Q A GV m) /\ lens_ok st0 (m_tiled V Q A GV m).
+Definition InvF (w : wrapper) (st0 : storeT) (m : mstateT) : Prop :=
+  good st0 (m_store V Q A GV m) (cov w m) /\ lens_ok st0 (m_tiled V Q A GV m) /\
+  saved_ok st0 (m_saved V Q A GV m).
 
-Lemma Inv_InvF st0 r d m : Inv st0 r d m -> InvF st0 m.
-Proof. intros (H1 & H2 & _). split; auto. Qed.
+Lemma Inv_InvF w st0 r d m : Inv w st0 r d m -> InvF w st0 m.
+Proof. intros (H1 & H2 & H3 & _). split; auto. Qed.
+
+Lemma Inv_intro w st0 recorded dirty (m : mstateT) :
+  good st0 (m_store V Q A GV m) (cov w m) ->
+  lens_ok st0 (m_tiled V Q A GV m) ->
+  saved_ok st0 (m_saved V Q A GV m) ->
+  lens_ok st0 (m_reset V Q A GV m) ->
+  (dirty = false -> m_store V Q A GV m = st0) ->
+  (recorded = true -> incl (map fst (m_reset V Q A GV m)) (cov w m)) ->
+  Inv w st0 recorded dirty m.
+Proof. intros. unfold Inv. tauto. Qed.
 
 Lemma reset_list_lens (st : storeT) srcs sens i m0 :
   In (i, m0) (reset_list V Q A st srcs sens) -> m0 = plen V Q A st i.
@@ -249,165 +299,198 @@ Proof.
   destruct (Nat.eqb _ _); simpl in H; [contradiction|]. destruct H as [H|[]]. congruence.
 Qed.
 
-Definition res_ok (st0 : storeT) (r : list instr) (x : res V Q A GV Val) : Prop :=
+Definition res_ok (w : wrapper) (st0 : storeT) (r : list instr) (x : res V Q A GV Val) : Prop :=
   match x with
-  | Cont _ _ _ _ _ m' => exists rec' dirty', prog_ok rec' dirty' r = true /\ Inv st0 rec' dirty' m'
-  | Ret _ _ _ _ _ _ m' => InvF st0 m'
-  | Exc _ _ _ _ _ _ m' => InvF st0 m'
+  | Cont _ _ _ _ _ m' => exists rec' dirty', prog_ok w rec' dirty' r = true /\ Inv w st0 rec' dirty' m'
+  | Ret _ _ _ _ _ _ m' => InvF w st0 m'
+  | Exc _ _ _ _ _ _ m' => InvF w st0 m'
   end.
 
-Lemma exec_ro_ok st0 c i m recorded dirty r :
-  prog_ok recorded dirty r = true -> Inv st0 recorded dirty m ->
-  res_ok st0 r
+Lemma exec_ro_ok w st0 c i m recorded dirty r :
+  prog_ok w recorded dirty r = true -> Inv w st0 recorded dirty m ->
+  res_ok w st0 r
     match exec_roT c i (m_store V Q A GV m) (m_M V Q A GV m) (m_env V Q A GV m) (m_cnt V Q A GV m)
                    (m_trace V Q A GV m) with
     | RCont _ _ e cnt tr => Cont V Q A GV Val (mkM V Q A GV (m_store V Q A GV m) (m_tiled V Q A GV m)
-                                (m_reset V Q A GV m) (m_M V Q A GV m) e cnt tr)
+                                (m_saved V Q A GV m) (m_reset V Q A GV m) (m_M V Q A GV m) e cnt tr)
     | RRet _ _ v cnt tr => Ret V Q A GV Val v (mkM V Q A GV (m_store V Q A GV m) (m_tiled V Q A GV m)
-                                (m_reset V Q A GV m) (m_M V Q A GV m) (m_env V Q A GV m) cnt tr)
+                                (m_saved V Q A GV m) (m_reset V Q A GV m) (m_M V Q A GV m)
+                                (m_env V Q A GV m) cnt tr)
     | RExc _ _ x cnt tr => Exc V Q A GV Val x (mkM V Q A GV (m_store V Q A GV m) (m_tiled V Q A GV m)
-                                (m_reset V Q A GV m) (m_M V Q A GV m) (m_env V Q A GV m) cnt tr)
+                                (m_saved V Q A GV m) (m_reset V Q A GV m) (m_M V Q A GV m)
+                                (m_env V Q A GV m) cnt tr)
     end.
 Proof.
   intros Hp Hi. destruct (exec_roT c i _ _ _ _ _); simpl.
-  - exists recorded, dirty. split; auto.
-  - eapply Inv_InvF; eauto.
-  - eapply Inv_InvF; eauto.
+  - exists recorded, dirty. split; [exact Hp|]. destruct w; exact Hi.
+  - destruct w; eapply Inv_InvF; eauto.
+  - destruct w; eapply Inv_InvF; eauto.
 Qed.
 
-Lemma Inv_intro st0 recorded dirty (m : mstateT) :
-  good st0 (m_store V Q A GV m) (m_tiled V Q A GV m) ->
-  lens_ok st0 (m_tiled V Q A GV m) ->
-  lens_ok st0 (m_reset V Q A GV m) ->
-  (dirty = false -> m_store V Q A GV m = st0) ->
-  (recorded = true -> incl (m_reset V Q A GV m) (m_tiled V Q A GV m)) ->
-  Inv st0 recorded dirty m.
-Proof. intros. unfold Inv. tauto. Qed.
+Lemma in_map_fst {B} i (b : B) (l : list (nat * B)) : In (i, b) l -> In i (map fst l).
+Proof. intros H. change i with (fst (i, b)). apply in_map, H. Qed.
 
-Lemma exec_inv st0 c sch pc i r m recorded dirty :
-  prog_ok recorded dirty (i :: r) = true -> Inv st0 recorded dirty m ->
-  res_ok st0 r (execT c sch pc i m).
+Lemma exec_inv w st0 c sch pc i r m recorded dirty :
+  prog_ok w recorded dirty (i :: r) = true -> Inv w st0 recorded dirty m ->
+  res_ok w st0 r (execT c sch pc i m).
 Proof.
   intros Hp Hi. unfold exec. destruct (s_anon sch pc).
   { simpl. eapply Inv_InvF; eauto. }
   destruct i; simpl in Hp;
-    try (apply (exec_ro_ok st0 c _ m recorded dirty r Hp Hi)).
+    try (apply (exec_ro_ok w st0 c _ m recorded dirty r Hp Hi)).
   - (* IPathLens *)
     apply andb_prop in Hp. destruct Hp as [Hd Hp]. apply negb_true_iff in Hd. subst dirty.
-    destruct Hi as (Hg & Ht & Hr & Hc & Hinc). simpl. exists false, false. split; [exact Hp|].
-    apply Inv_intro; simpl; auto; try discriminate.
-    intros j m0 o0 Hin Ho. apply reset_list_lens in Hin. rewrite (Hc eq_refl) in Hin.
-    unfold plen in Hin. rewrite Ho in Hin. exact Hin.
+    destruct Hi as (Hg & Ht & Hs & Hr & Hc & Hinc). simpl. exists false, false. split; [exact Hp|].
+    apply Inv_intro; simpl.
+    + destruct w; exact Hg.
+    + exact Ht.
+    + exact Hs.
+    + intros j m0 o0 Hin Ho. apply reset_list_lens in Hin. rewrite (Hc eq_refl) in Hin.
+      unfold plen in Hin. rewrite Ho in Hin. exact Hin.
+    + exact Hc.
+    + discriminate.
   - (* IRecord *)
-    destruct Hi as (Hg & Ht & Hr & Hc & Hinc). simpl. exists true, dirty. split; [exact Hp|].
-    apply Inv_intro; simpl; auto.
-    + eapply good_mono; [|exact Hg]. apply incl_appl, incl_refl.
+    destruct Hi as (Hg & Ht & Hs & Hr & Hc & Hinc). simpl. exists (is_trim w), dirty. split; [exact Hp|].
+    apply Inv_intro; simpl.
+    + eapply good_mono; [|exact Hg]. destruct w; simpl; try apply incl_refl.
+      rewrite map_app. apply incl_appl, incl_refl.
     + intros j m0 o0 Hin Ho. apply in_app_or in Hin. destruct Hin; [eapply Ht | eapply Hr]; eauto.
-    + intros _. apply incl_appr, incl_refl.
+    + exact Hs.
+    + exact Hr.
+    + exact Hc.
+    + destruct w; simpl; try discriminate. intros _. rewrite map_app. apply incl_appr, incl_refl.
+  - (* IRecordOrig *)
+    apply andb_prop in Hp. destruct Hp as [Hd Hp]. apply negb_true_iff in Hd. subst dirty.
+    destruct Hi as (Hg & Ht & Hs & Hr & Hc & Hinc). specialize (Hc eq_refl).
+    simpl. exists (is_restore w), false. split; [exact Hp|].
+    apply Inv_intro; simpl.
+    + eapply good_mono; [|exact Hg]. destruct w; simpl; try apply incl_refl.
+      rewrite map_app. apply incl_appl, incl_refl.
+    + exact Ht.
+    + intros j pq o0 Hin Ho. apply in_app_or in Hin. destruct Hin as [Hin|Hin]; [eapply Hs; eauto|].
+      apply in_map_iff in Hin. destruct Hin as ([j' m0] & Heq & _). simpl in Heq.
+      injection Heq as Hj Hpq. rewrite <- Hpq, Hj, Hc. unfold paths_of. rewrite Ho. reflexivity.
+    + exact Hr.
+    + intros _. exact Hc.
+    + destruct w; simpl; try discriminate. intros _. rewrite map_app, map_map. simpl.
+      apply incl_appr, incl_refl.
   - (* ITile *)
     apply andb_prop in Hp. destruct Hp as [Hrec Hp]. subst recorded.
-    destruct Hi as (Hg & Ht & Hr & Hc & Hinc). specialize (Hinc eq_refl).
+    destruct Hi as (Hg & Ht & Hs & Hr & Hc & Hinc). specialize (Hinc eq_refl).
+    assert (Hcov : forall st', cov w (with_store V Q A GV m st') = cov w m) by (intros; destruct w; reflexivity).
     assert (Hfull : good st0 (loop_fullT (fun m0 => tile_objT (m_M V Q A GV m - m0))
-                                 (m_reset V Q A GV m) (m_store V Q A GV m)) (m_tiled V Q A GV m)).
+                                 (m_reset V Q A GV m) (m_store V Q A GV m)) (cov w m)).
     { apply loop_full_good; auto.
       - intros; apply ext_tile_obj; auto.
-      - intros j m0 Hin. left. exists m0. apply Hinc, Hin. }
-    assert (Hcont : res_ok st0 r (Cont V Q A GV Val (with_store V Q A GV m
-               (loop_fullT (fun m0 => tile_objT (m_M V Q A GV m - m0)) (m_reset V Q A GV m)
-                           (m_store V Q A GV m))))).
-    { simpl. exists true, true. split; [exact Hp|].
-      apply Inv_intro; simpl; auto; try discriminate. }
+      - intros j m0 Hin. left. apply Hinc. eapply in_map_fst; eauto. }
     destruct (1 <? m_M V Q A GV m).
-    + destruct (s_loop sch pc) as [lc|]; [|exact Hcont].
-      destruct (crashes (m_reset V Q A GV m) lc); [|exact Hcont].
-      simpl. split; simpl; auto.
-      apply loop_crash_good; auto.
-      * intros; apply ext_tile_obj; auto.
-      * intros; apply ext_tile_pos; auto.
-      * intros j m0 Hin. left. exists m0. apply Hinc, Hin.
+    + destruct (s_loop sch pc) as [lc|].
+      * simpl. unfold InvF. rewrite Hcov. simpl. split; [|split; [exact Ht|exact Hs]].
+        apply loop_crash_good; auto.
+        -- intros; apply ext_tile_obj; auto.
+        -- intros; apply ext_tile_pos; auto.
+        -- intros j m0 Hin. left. apply Hinc. eapply in_map_fst; eauto.
+      * simpl. exists true, true. split; [exact Hp|].
+        apply Inv_intro; rewrite ?Hcov; simpl.
+        -- exact Hfull.
+        -- exact Ht.
+        -- exact Hs.
+        -- exact Hr.
+        -- discriminate.
+        -- intros _. exact Hinc.
     + simpl. exists true, true. split; [exact Hp|].
-      apply Inv_intro; simpl; auto; try discriminate.
+      apply Inv_intro; simpl.
+      * exact Hg.
+      * exact Ht.
+      * exact Hs.
+      * exact Hr.
+      * discriminate.
+      * intros _. exact Hinc.
   - (* ITrim *)
-    destruct Hi as (Hg & Ht & Hr & Hc & Hinc).
-    assert (Hfull : good st0 (loop_fullT trim_objT (m_reset V Q A GV m) (m_store V Q A GV m))
-                         (m_tiled V Q A GV m)).
+    destruct Hi as (Hg & Ht & Hs & Hr & Hc & Hinc).
+    assert (Hcov : forall st', cov w (with_store V Q A GV m st') = cov w m) by (intros; destruct w; reflexivity).
+    assert (Hfull : good st0 (loop_fullT trim_objT (m_reset V Q A GV m) (m_store V Q A GV m)) (cov w m)).
     { apply loop_full_good; auto.
       - intros j m0 o0 o Hin Ho He. rewrite (Hr j m0 o0 Hin Ho). apply ext_trim_obj, He.
       - intros j m0 Hin. right. intros o0 Ho Hw. rewrite (Hr j m0 o0 Hin Ho).
         apply ext_trim_eq, ext_refl, Hw. }
-    assert (Hcont : res_ok st0 r (Cont V Q A GV Val (with_store V Q A GV m
-               (loop_fullT trim_objT (m_reset V Q A GV m) (m_store V Q A GV m))))).
-    { simpl. exists recorded, true. split; [exact Hp|].
-      apply Inv_intro; simpl; auto; try discriminate. }
-    destruct (s_loop sch pc) as [lc|]; [|exact Hcont].
-    destruct (crashes (m_reset V Q A GV m) lc); [|exact Hcont].
-    simpl. split; simpl; auto.
-    apply loop_crash_good; auto.
-    + intros j m0 o0 o Hin Ho He. rewrite (Hr j m0 o0 Hin Ho). apply ext_trim_obj, He.
-    + intros j m0 o0 o Hin Ho He. rewrite (Hr j m0 o0 Hin Ho). apply ext_trim_pos, He.
-    + intros j m0 Hin. right. intros o0 Ho Hw. rewrite (Hr j m0 o0 Hin Ho). split.
-      * apply ext_trim_eq, ext_refl, Hw.
-      * apply trim_pos_self, Hw.
+    destruct (s_loop sch pc) as [lc|].
+    + simpl. unfold InvF. rewrite Hcov. simpl. split; [|split; [exact Ht|exact Hs]].
+      apply loop_crash_good; auto.
+      * intros j m0 o0 o Hin Ho He. rewrite (Hr j m0 o0 Hin Ho). apply ext_trim_obj, He.
+      * intros j m0 o0 o Hin Ho He. rewrite (Hr j m0 o0 Hin Ho). apply ext_trim_pos, He.
+      * intros j m0 Hin. right. intros o0 Ho Hw. rewrite (Hr j m0 o0 Hin Ho). split.
+        -- apply ext_trim_eq, ext_refl, Hw.
+        -- apply trim_pos_self, Hw.
+    + simpl. exists recorded, true. split; [exact Hp|].
+      apply Inv_intro; rewrite ?Hcov; simpl.
+      * exact Hfull.
+      * exact Ht.
+      * exact Hs.
+      * exact Hr.
+      * discriminate.
+      * exact Hinc.
 Qed.
 
-Lemma run_body_inv st0 c sch : forall p pc m recorded dirty,
-  prog_ok recorded dirty p = true -> Inv st0 recorded dirty m ->
+Lemma run_body_inv w st0 c sch : forall p pc m recorded dirty,
+  prog_ok w recorded dirty p = true -> Inv w st0 recorded dirty m ->
   match run_bodyT c sch pc p m with
-  | Cont _ _ _ _ _ m' => InvF st0 m'
-  | Ret _ _ _ _ _ _ m' => InvF st0 m'
-  | Exc _ _ _ _ _ _ m' => InvF st0 m'
+  | Cont _ _ _ _ _ m' => InvF w st0 m'
+  | Ret _ _ _ _ _ _ m' => InvF w st0 m'
+  | Exc _ _ _ _ _ _ m' => InvF w st0 m'
   end.
 Proof.
   induction p as [|i r IH]; intros pc m recorded dirty Hp Hi; simpl.
   - eapply Inv_InvF; eauto.
-  - pose proof (exec_inv st0 c sch pc i r m recorded dirty Hp Hi) as H.
+  - pose proof (exec_inv w st0 c sch pc i r m recorded dirty Hp Hi) as H.
     destruct (execT c sch pc i m) as [m'|v m'|x m']; simpl in H; auto.
     destruct H as (rec' & dirty' & Hp' & Hi'). eapply IH; eauto.
 Qed.
 
-(* every exit of the wrapped function leaves the store as it found it *)
-Theorem state_restored p c sch cnt st :
-  prog_ok false false p = true -> wf_storeT st ->
-  r_store V Q A Val (level2T WFinallyTrim p c sch cnt st) = st.
+Lemma init_inv w st cnt : wf_storeT st ->
+  Inv w st false false (mkM V Q A GV st [] [] [] 0 (env0 GV) cnt []).
 Proof.
-  intros Hp Hw. unfold getBH_level2.
-  assert (Hi : Inv st false false (mkM V Q A GV st [] [] 0 (env0 GV) cnt [])).
-  { apply Inv_intro; simpl; auto.
-    - apply (good_init st Hw).
-    - intros ? ? ? [].
-    - intros ? ? ? [].
-    - intros _. apply incl_refl. }
-  pose proof (run_body_inv st c sch p 0 _ false false Hp Hi) as H.
+  intros Hw. apply Inv_intro; simpl; auto.
+  - apply good_init, Hw.
+  - intros ? ? ? [].
+  - intros ? ? ? [].
+  - intros ? ? ? [].
+  - intros _. apply incl_nil_l.
+Qed.
+
+(* every exit of the wrapped function leaves the store as it found it *)
+Theorem state_restored w p c sch cnt st :
+  wrapper_ok w p = true -> wf_storeT st ->
+  r_store V Q A Val (level2T w p c sch cnt st) = st.
+Proof.
+  intros Hp Hw. unfold getBH_level2, wrapper_ok in *.
+  pose proof (run_body_inv w st c sch p 0 _ false false Hp (init_inv w st cnt Hw)) as H.
   destruct (run_bodyT c sch 0 p _) as [m'|v m'|x m']; simpl;
-    destruct H as (Hg & Hk); apply trim_all_restores; auto.
+    destruct H as (Hg & Hk & Hs); destruct w; simpl in *;
+    solve [ apply trim_all_restores; auto | apply restore_all_restores; auto
+          | destruct Hg as (Hl & Hg); apply nth_error_ext_eq; auto; intros j o0 Ho;
+            destruct (Hg j o0 Ho) as (o & Hn & _ & [-> | []]); exact Hn ].
 Qed.
 
 (* ... and therefore calling again (same arguments, same behaviour of the field functions) gives the
    identical outcome, value, trace and state *)
-Theorem second_call_identical p c sch cnt st :
-  prog_ok false false p = true -> wf_storeT st ->
-  level2T WFinallyTrim p c sch cnt (r_store V Q A Val (level2T WFinallyTrim p c sch cnt st))
-  = level2T WFinallyTrim p c sch cnt st.
+Theorem second_call_identical w p c sch cnt st :
+  wrapper_ok w p = true -> wf_storeT st ->
+  level2T w p c sch cnt (r_store V Q A Val (level2T w p c sch cnt st)) = level2T w p c sch cnt st.
 Proof. intros Hp Hw. rewrite state_restored by assumption. reflexivity. Qed.
 
-(* without the finally: still nothing but path EXTENSION can happen (attributes untouched, the old
-   paths are prefixes of the new ones), for every program and every schedule that passes prog_ok *)
-Theorem plain_only_extends p c sch cnt st :
-  prog_ok false false p = true -> wf_storeT st ->
+(* the body alone, whatever the wrapper does afterwards: attributes are never written and the old
+   paths stay prefixes of the new ones at every exit *)
+Theorem plain_only_extends w p c sch cnt st :
+  wrapper_ok w p = true -> wf_storeT st ->
   let st' := r_store V Q A Val (level2T WPlain p c sch cnt st) in
   length st' = length st /\
   forall i o0, nth_error st i = Some o0 -> exists o, nth_error st' i = Some o /\ ext o0 o.
 Proof.
-  intros Hp Hw. unfold getBH_level2.
-  assert (Hi : Inv st false false (mkM V Q A GV st [] [] 0 (env0 GV) cnt [])).
-  { apply Inv_intro; simpl; auto.
-    - apply (good_init st Hw).
-    - intros ? ? ? [].
-    - intros ? ? ? [].
-    - intros _. apply incl_refl. }
-  pose proof (run_body_inv st c sch p 0 _ false false Hp Hi) as H.
+  intros Hp Hw. unfold getBH_level2, wrapper_ok in *.
+  pose proof (run_body_inv w st c sch p 0 _ false false Hp (init_inv w st cnt Hw)) as H.
   destruct (run_bodyT c sch 0 p _) as [m'|v m'|x m']; simpl;
-    destruct H as ((Hl & Hg) & Hk); (split; [exact Hl|]);
+    destruct H as ((Hl & Hg) & _); (split; [exact Hl|]);
     intros i o0 Ho; destruct (Hg i o0 Ho) as (o & Hn & He & _); exists o; auto.
 Qed.
 
